@@ -1602,6 +1602,10 @@ func (v *Verifier) havocLoopLocals(st *State, h *ssa.BasicBlock, blocks map[*ssa
 				st.assume(tCmp(">=", it.pos, intLit(0)))
 			} else {
 				it.visited = v.Y.fresh(v.D, "visited", it.visited.Sort)
+				if it.count != nil {
+					it.count = v.Y.fresh(v.D, "itcount", "Int")
+					st.assume(tCmp(">=", it.count, intLit(0)))
+				}
 			}
 		}
 	}
@@ -1612,6 +1616,10 @@ func (v *Verifier) bindLoopVars(st *State, env *Env, h *ssa.BasicBlock) {
 	for _, it := range f.iters {
 		if it.isStr && it.pos != nil {
 			env.vars["zz_pos"] = Val{it.pos, types.Typ[types.Int]}
+		}
+		if !it.isStr && it.count != nil {
+			// zz_n: how many keys the range-over-map loop has produced (= completed iterations at the loop head)
+			env.vars["zz_n"] = Val{it.count, types.Typ[types.Int]}
 		}
 	}
 	for _, in := range h.Instrs {
